@@ -133,7 +133,10 @@ def explore(obj, ops_table, hist, kind, train, is_eval_repeatable=True):
         asnap = snap_tensors(mon)
         ssnap = snap_state(obj)
         allowed = allowed_in_training(obj) if train else set()
-        torch.manual_seed(7)
+        # sampling calls are made reproducible (same seed every time); deterministic evaluation calls get a different
+        # RNG state at every step, so a library that draws random numbers in such a call (e.g. dropout left on in
+        # eval mode) shows up as a repeated call that differs
+        torch.manual_seed(7 if op in ("sample", "salp") else 100 + step)
         res = None
         err = None
         try:
